@@ -66,6 +66,21 @@ def scratch_dir():
     return d
 
 
+_RUN_CWD = None
+
+
+def run_cwd():
+    """Working directory for the programs under test: generated programs open files
+    by relative name, which must never land in /verif or /repo."""
+    global _RUN_CWD
+    if _RUN_CWD is None or not os.path.isdir(_RUN_CWD):
+        import atexit
+        _RUN_CWD = scratch_dir()
+        os.chmod(_RUN_CWD, 0o755)
+        atexit.register(shutil.rmtree, _RUN_CWD, True)
+    return _RUN_CWD
+
+
 # ---------------------------------------------------------------------------
 # probe cases
 
@@ -118,7 +133,7 @@ def _run_shard(cases, workdir, shard_no, timeout_per_shard, env=None, max_hangs=
         timed_out = False
         with open(inp, "rb") as fi, open(outp, "wb") as fo:
             p = subprocess.Popen([PROBE_BIN], stdin=fi, stdout=fo, stderr=subprocess.DEVNULL,
-                                 env=env or os.environ)
+                                 env=env or os.environ, cwd=run_cwd())
             try:
                 rc = p.wait(timeout=timeout_per_shard)
             except subprocess.TimeoutExpired:
@@ -218,7 +233,7 @@ def run_binary(args, stdin_data=b"", release=False, timeout=30, env=None, cwd=No
         p = subprocess.Popen([exe] + list(args),
                              stdin=(stdin_file if stdin_file is not None else subprocess.PIPE),
                              stdout=(stdout_file if stdout_file is not None else subprocess.PIPE),
-                             stderr=subprocess.PIPE, env=e, cwd=cwd, preexec_fn=preexec_fn)
+                             stderr=subprocess.PIPE, env=e, cwd=(cwd or run_cwd()), preexec_fn=preexec_fn)
     except OSError as ex:
         return {"rc": None, "out": b"", "err": str(ex).encode(), "timeout": False, "spawn_error": True}
     try:
